@@ -182,6 +182,25 @@ theorem C11_witness_inherited_font_name :
     nonWs (Spec.run W3 false).runs.reverse.flatten = [0x41, 0x43] ∧
     nonWs (appTexts (events W3 false 0).2) = [0x41, 0x393] := by decide
 
+def W4 : Prog := { fonts := [.simple], streams := [{ fmap := [0], xmap := [], ops :=
+  [.bt, .tf 0, .other, .tj [0x61, 0x62, 0x2D, 0x2D], .quote [], .quote [], .quote [0x63], .et] }] }
+
+/-- C11-F4 (corpus/C11/f4_hyphen_chain.req), `merge_hyphenated` on (the default): `(ab--) Tj () ' () ' (c) '`
+    — shown `ab--c` on a page that meets none of F1–F3, extracted `abc` WHATEVER the geometry: every
+    line-wrap append with an empty text pops one more hyphen (`append_bounded` fuses without looking
+    at what it appends).  With the option off nothing is lost (`C11_extract_flat_order_partial`). -/
+theorem C11_witness_hyphen_chain :
+    Clean W4 false ∧
+    nonWs (Spec.run W4 false).runs.reverse.flatten = [0x61, 0x62, 0x2D, 0x2D, 0x63] ∧
+    ∀ F : FlatΩ, nonWs (consume F true false none (events W4 false 0).2).text = [0x61, 0x62, 0x63] := by
+  refine ⟨by decide, by decide, ?_⟩
+  intro F
+  have e : (events W4 false 0).2 = [.app .tj [0x61, 0x62, 0x2D, 0x2D], .frag [0x61, 0x62, 0x2D, 0x2D],
+      .app .nl [], .app .nl [], .app .nl [0x63], .frag [0x63]] := by decide
+  rw [e]
+  simp [consume, consumeFrom, consume1, sepFor, appendBounded, groupAfter, recordGroup,
+    sepList, nonWs, isWs, HY, NL]
+
 /-- the three witnesses refute the FULL statement -/
 theorem C11_full_statement_fails :
     ¬ (∀ P ia cr, (Spec.run P ia).ok = true →
@@ -197,7 +216,7 @@ theorem C11_full_statement_fails :
    ∀ P o F Ω C geom, (Spec.run P o.ia).ok →
      nonWs (extract P o F Ω C geom).text ~ nonWs (Spec.run P o.ia).runs.reverse.flatten
    Missing in `C11_extract_text_partial`: the three defects above (`Clean`); `merge_hyphenated`
-   (removes run-final hyphens by design) and `max_extracted_bytes` (keeps a prefix by design) — their
+   (removes run-final hyphens by design — and more than that: `C11_witness_hyphen_chain`, C11-F4) and `max_extracted_bytes` (keeps a prefix by design) — their
    exact effect is `C11_budget_respected` / `C11_budget_prefix` and the optional-hyphen pattern the
    run-time oracle checks; the XY-cut reading-order path is covered at the permutation level only
    (`C11_xycut_permutes`). -/
